@@ -218,38 +218,94 @@ def generate(ctx):
     out += "Definition p_lo (cur k : Z) : Z := %s.\nDefinition p_hi (cur k : Z) : Z := %s.\n" % (lo_e, hi_e)
     out += "Definition p_next (cur k : Z) : Z := %s.\n" % next_e
 
-    # ---------------- ConcatDataset ----------------
+    # ---------------- ConcatDataset (value trees / loop records of a symbolic execution) ----------------
     path2 = ctx.src("direct/data/datasets.py")
     tree2, _ = pg.parse_file(path2)
-    fn = _find_method(tree2, "ConcatDataset", "__getitem__", path2)
-    body = pg.strip_doc(fn.body)
-    tr = pg.ExprT({"idx": "idx", "len(self)": "len", "dataset_idx": "j", "self.cumulative_sizes[dataset_idx - 1]": "prev"}, path2, truthy_int=False)
-    neg = body[0]
-    if not (isinstance(neg, ast.If) and ast.unparse(neg.test) == "idx < 0" and len(neg.body) == 2 and isinstance(neg.body[0], ast.If) and isinstance(neg.body[0].body[0], ast.Raise) and isinstance(neg.body[1], ast.Assign) and ast.unparse(neg.body[1].targets[0]) == "idx" and not neg.orelse):
-        raise Untranslatable("ConcatDataset.__getitem__: negative-index prologue outside subset", neg.lineno, path2)
-    out += "Definition cd_neg_raises (idx len : Z) : bool := %s.\nDefinition cd_norm (idx len : Z) : Z := %s.\n" % (tr.b(neg.body[0].test), tr.z(neg.body[1].value))
-    if ast.unparse(body[1]) != "dataset_idx = bisect.bisect_right(self.cumulative_sizes, idx)":
-        raise Untranslatable("ConcatDataset.__getitem__: expected bisect_right on cumulative_sizes", body[1].lineno, path2)
-    if not (isinstance(body[2], ast.Assign) and ast.unparse(body[2].targets[0]) == "sample_idx"):
-        raise Untranslatable("ConcatDataset.__getitem__: expected sample_idx assignment", body[2].lineno, path2)
-    out += "Definition cd_sample (idx j prev : Z) : Z := %s.\n" % tr.z(body[2].value)
-    if ast.unparse(body[3]) != "return self.datasets[dataset_idx][sample_idx]" or len(body) != 4:
-        raise Untranslatable("ConcatDataset.__getitem__: return outside subset", body[3].lineno, path2)
-    fn = _find_method(tree2, "ConcatDataset", "cumsum", path2)
-    body = pg.strip_doc(fn.body)
-    srcs = [ast.unparse(s) for s in body]
-    if srcs[0] != "out_sequence, total = ([], 0)" or not isinstance(body[1], ast.For) or srcs[2] != "return out_sequence" or len(body) != 3:
-        raise Untranslatable("ConcatDataset.cumsum outside subset", fn.lineno, path2)
-    lb = body[1].body
-    if ast.unparse(lb[0]) != "length = len(item)" or len(lb) != 3:
-        raise Untranslatable("ConcatDataset.cumsum loop outside subset", body[1].lineno, path2)
-    tr = pg.ExprT({"length": "length", "total": "total"}, path2, truthy_int=False)
-    ap = lb[1]
-    if not (isinstance(ap, ast.Expr) and isinstance(ap.value, ast.Call) and ast.unparse(ap.value.func) == "out_sequence.append"):
-        raise Untranslatable("ConcatDataset.cumsum: expected append", ap.lineno, path2)
-    if not (isinstance(lb[2], ast.AugAssign) and isinstance(lb[2].op, ast.Add) and ast.unparse(lb[2].target) == "total"):
-        raise Untranslatable("ConcatDataset.cumsum: expected total += ...", lb[2].lineno, path2)
-    out += "Definition cs_entry (total length : Z) : Z := %s.\nDefinition cs_next (total length : Z) : Z := (total + %s).\n" % (tr.z(ap.value.args[0]), tr.z(lb[2].value))
+    idx = S("idx")
+    length = {("call", S("len"), (me,), ()), ("call", ("attr", me, "__len__"), (), ())}
+    csz = ("attr", me, "cumulative_sizes")
+    t, _n = X.run_function(tree2, path2, "ConcatDataset.__getitem__", opaque={"__len__"})
+    t = X.lift_ife(X.drop_do(t))
+    negs, norms, samples = set(), set(), set()
+    for conds, lf in X.leaves(t):
+        neg = [pol for c, pol in conds if c == ("cmp", "<", idx, X.const(0))]
+        if len(set(neg)) != 1:
+            raise Untranslatable("ConcatDataset.__getitem__: the path does not decide `idx < 0`", None, path2)
+        guards = [(c, pol) for c, pol in conds if c != ("cmp", "<", idx, X.const(0)) and X.find_nodes(c, lambda u: u in length)]
+        em = X.Emit(lambda u: "idx" if u == idx else "len" if u in length else None, path2)
+        if lf[0] == "raise":
+            if not neg[0] or len(guards) != 1:
+                raise Untranslatable("ConcatDataset.__getitem__: raises outside the negative-index guard", None, path2)
+            c, pol = guards[0]
+            negs.add(em.b(c) if pol else "(negb %s)" % em.b(c))
+            continue
+        v = lf[1]
+        # self.datasets[j][sample] with j = bisect_right(cumulative_sizes, normalised idx)
+        if not (v[0] == "sub" and v[1][0] == "sub" and v[1][1] == ("attr", me, "datasets")):
+            raise Untranslatable("ConcatDataset.__getitem__: return outside subset: %s" % X.show(v)[:100], None, path2)
+        j, sample = v[1][2], v[2]
+        if j == X.const(0):
+            # `if dataset_idx == 0: return self.datasets[0][..]`: the member index is the one the path tested
+            tested = [c[2] for c, pol in conds if pol and c[0] == "cmp" and c[1] == "==" and c[3] == X.const(0) and c[2][0] == "call"]
+            if len(tested) == 1:
+                j = tested[0]
+        if not (j[0] == "call" and j[1] == ("attr", S("bisect"), "bisect_right") and len(j[2]) == 2 and j[2][0] == csz and not j[3]):
+            raise Untranslatable("ConcatDataset.__getitem__: expected bisect_right on cumulative_sizes", None, path2)
+        nidx = j[2][1]
+        if neg[0]:
+            norms.add(em.z(nidx))
+        elif nidx != idx:
+            raise Untranslatable("ConcatDataset.__getitem__: a non-negative index is changed before the lookup", None, path2)
+        # the local index: idx itself in the first member, else idx minus the cumulative size before the member
+        first = [pol for c, pol in conds if c == ("cmp", "==", j, X.const(0))]
+        prev = ("sub", csz, ("bin", "-", j, X.const(1)))
+        em2 = X.Emit(lambda u: "idx" if u == nidx else "j" if u == j else "prev" if u == prev else None, path2)
+        if first:
+            samples.add(("path", first[0], em2.z(sample)))
+        else:
+            samples.add(("expr", None, em2.z(sample)))
+    if len(negs) != 1 or len(norms) != 1:
+        raise Untranslatable("ConcatDataset.__getitem__: negative-index prologue outside subset", None, path2)
+    out += "Definition cd_neg_raises (idx len : Z) : bool := %s.\nDefinition cd_norm (idx len : Z) : Z := %s.\n" % (negs.pop(), norms.pop())
+    exprs = {e for k_, _p, e in samples if k_ == "expr"}
+    paths_ = {(p_, e) for k_, p_, e in samples if k_ == "path"}
+    if len(exprs) == 1 and not paths_:
+        sample_e = exprs.pop()
+    elif not exprs and {p_ for p_, _e in paths_} == {True, False} and len(paths_) == 2:
+        d_ = dict(paths_)
+        sample_e = "(if (j =? 0) then %s else %s)" % (d_[True], d_[False])
+    else:
+        raise Untranslatable("ConcatDataset.__getitem__: expected sample_idx assignment", None, path2)
+    out += "Definition cd_sample (idx j prev : Z) : Z := %s.\n" % sample_e
+    # cumsum: running totals of the member lengths
+    hits, stopped = X.watch_calls(tree2, path2, "ConcatDataset.cumsum", [])
+    seq = S("sequence")
+    t, _n = X.run_function(tree2, path2, "ConcatDataset.cumsum")
+    t = X.prune_raises(X.drop_do(t))
+    acc = X.parse_expr("list(itertools.accumulate(len(e) for e in sequence))")
+    if t is not None and t[0] == "ret" and X.show(t[1]).replace("bv2", "bv1") in (X.show(acc).replace("bv2", "bv1"), X.show(X.parse_expr("list(itertools.accumulate(map(len, sequence)))")).replace("bv2", "bv1")):
+        # itertools.accumulate of the lengths: each entry is the previous total plus the length
+        out += "Definition cs_entry (total length : Z) : Z := (total + length).\nDefinition cs_next (total length : Z) : Z := (total + length).\n"
+    else:
+        loops = hits["$loops"]
+        if len(loops) != 1 or loops[0]["iter"] != seq:
+            raise Untranslatable("ConcatDataset.cumsum outside subset (%s)" % stopped, None, path2)
+        L = loops[0]
+        d = L["depth"]
+        ends = [e_ for kind, c_, e_ in L["paths"] if kind == "end"]
+        lists = [n for n in L["assigned"] if L["before"].get(n) == ("list", ())]
+        totals = [n for n in L["assigned"] if L["before"].get(n) == X.const(0)]
+        if len(ends) != 1 or len(lists) != 1 or len(totals) != 1:
+            raise Untranslatable("ConcatDataset.cumsum loop outside subset", None, path2)
+        e_ = ends[0]
+        ln, tn = lists[0], totals[0]
+        em = X.Emit(lambda u: "total" if u == ("havoc", tn, d) else "length" if u == ("call", S("len"), (("bv", d),), ()) else None, path2)
+        app = e_[ln]
+        if not (app[0] == "appended" and app[1] == ("havoc", ln, d)):
+            raise Untranslatable("ConcatDataset.cumsum: expected append", None, path2)
+        if t is None or t[0] != "ret" or t[1] != ("after", ln, d):
+            raise Untranslatable("ConcatDataset.cumsum: does not return the list it builds", None, path2)
+        out += "Definition cs_entry (total length : Z) : Z := %s.\nDefinition cs_next (total length : Z) : Z := %s.\n" % (em.z(app[2]), em.z(e_[tn]))
     return [pg.write_gen(ctx, "C12_gen", out)]
 
 
